@@ -73,9 +73,13 @@ GReboot(m, e) ==
       reb == k \in DOMAIN m.sess /\ e.rb /\ (~m.sess[k][1] \/ m.sess[k][2] >= e.sid)
       m1  == [m EXCEPT !.sess = Put(@, k, <<e.rb, e.sid>>)]
   IN IF reb THEN GKill(m1, LAMBDA x : x[2] = e.src) ELSE m1
+\* (an entry that is ambiguous -- "not live, or live for t" -- and is not settled by a notification keeps its ambiguity while
+\*  time passes; the tick in which its possible life ends is an expiry tick like any other)
 GAdv(m, d) ==
-  LET nv(x) == IF x = FOREVER THEN x ELSE IF x <= 0 THEN 0 ELSE IF x > d THEN x - d ELSE 0
-  IN [m EXCEPT !.exp = {k \in DOMAIN m.live : m.live[k] > 0 /\ nv(m.live[k]) = 0},
+  LET nv(x) == IF x = FOREVER \/ x = 0 - FOREVER THEN x
+               ELSE IF x < 0 THEN (IF 0 - x > d THEN x + d ELSE 0)
+               ELSE IF x > d THEN x - d ELSE 0
+  IN [m EXCEPT !.exp = {k \in DOMAIN m.live : (m.live[k] > 0 /\ nv(m.live[k]) = 0) \/ (m.live[k] < 0 /\ 0 - m.live[k] = d)},
                !.live = [k \in DOMAIN @ |-> nv(@[k])]]
 InstOfSvc(m, svc) == {i \in Insts(m) : SvcOf(m, i) = svc}
 SubMatches(m, i, en) == en.svc \in Range(m.cfg.inst[i].subs) /\ en.eg \in Range(m.cfg.inst[i].egs)
